@@ -1,6 +1,8 @@
 package wire
 
 import (
+	"time"
+	"strings"
 	"bytes"
 	"encoding/json"
 	"fmt"
@@ -250,6 +252,7 @@ func Replay(i int, raw []byte) child.Result {
 	case "strlist":
 		r, herr = v.doStrList()
 	case "commit":
+		noise.Do(startEncoderNoise)
 		r, herr = v.doCommit()
 	case "table":
 		r, herr = v.doTable()
@@ -1040,4 +1043,98 @@ func min(a, b int) int {
 		return a
 	}
 	return b
+}
+
+
+// noise: while the vectors are replayed, other goroutines keep encoding commits, tables and blocks of other shapes.
+// Encoders are called concurrently in real use (a server answering several fetches, ingest workers); state shared
+// between calls shows as wrong bytes in the vector under replay.
+var noise sync.Once
+
+func startEncoderNoise() {
+	for g := 0; g < 3; g++ {
+		go func(g int) {
+			names := []string{"a", "Ünï Cødé", strings.Repeat("n", 300), ""}
+			for i := 0; ; i++ {
+				c := &objects.Commit{
+					Table:       bytes.Repeat([]byte{byte(g)}, 16),
+					AuthorName:  names[(i+g)%len(names)],
+					AuthorEmail: strings.Repeat("e", (i*7+g)%70),
+					Message:     strings.Repeat("m", (i*13+g)%900),
+					Time:        time.Unix(int64(1600000000+i), 0),
+				}
+				c.WriteTo(io.Discard)
+				enc := objects.NewStrListEncoder(true)
+				objects.WriteBlockTo(enc, io.Discard, [][]string{{"x", strings.Repeat("y", i%50)}, {"", "z"}})
+				if i%64 == 0 {
+					time.Sleep(time.Millisecond)
+				}
+			}
+		}(g)
+	}
+}
+
+
+// ReplayConcurrent: encoding is a function of the value - also when several goroutines encode at the same time.
+// G goroutines each encode N commits / tables / blocks of different shapes; every result must be the bytes the same
+// call gives when nothing else runs (the sequential results themselves are bound to the specification by the vectors).
+func ReplayConcurrent(i int, raw []byte) child.Result {
+	var sc struct {
+		G, N int
+	}
+	if err := json.Unmarshal(raw, &sc); err != nil {
+		return child.Inconclusive(err)
+	}
+	mk := func(g, i int) *objects.Commit {
+		names := []string{"a", "Ünï Cødé", strings.Repeat("n", 300), ""}
+		return &objects.Commit{
+			Table:       bytes.Repeat([]byte{byte(g + 1)}, 16),
+			AuthorName:  names[(i+g)%len(names)],
+			AuthorEmail: strings.Repeat("e", (i*7+g)%70),
+			Message:     strings.Repeat("m", (i*13+g*5)%900),
+			Time:        time.Unix(int64(1600000000+i), 0).UTC(),
+		}
+	}
+	encC := func(c *objects.Commit) []byte {
+		var b bytes.Buffer
+		c.WriteTo(&b)
+		return b.Bytes()
+	}
+	encB := func(g, i int) []byte {
+		var b bytes.Buffer
+		objects.WriteBlockTo(objects.NewStrListEncoder(true), &b, [][]string{{"x", strings.Repeat("y", (i+g)%50)}, {"", fmt.Sprint(i)}})
+		return b.Bytes()
+	}
+	want := make([][][2][]byte, sc.G)
+	for g := 0; g < sc.G; g++ {
+		want[g] = make([][2][]byte, sc.N)
+		for k := 0; k < sc.N; k++ {
+			want[g][k] = [2][]byte{encC(mk(g, k)), encB(g, k)}
+		}
+	}
+	var wg sync.WaitGroup
+	bad := make([]string, sc.G)
+	for g := 0; g < sc.G; g++ {
+		wg.Add(1)
+		go func(g int) {
+			defer wg.Done()
+			for k := 0; k < sc.N; k++ {
+				if !bytes.Equal(encC(mk(g, k)), want[g][k][0]) {
+					bad[g] = fmt.Sprintf("commit %d of goroutine %d encodes differently while others encode", k, g)
+					return
+				}
+				if !bytes.Equal(encB(g, k), want[g][k][1]) {
+					bad[g] = fmt.Sprintf("block %d of goroutine %d encodes differently while others encode", k, g)
+					return
+				}
+			}
+		}(g)
+	}
+	wg.Wait()
+	for _, b := range bad {
+		if b != "" {
+			return child.Fail("wire/concurrent-encode/differs", map[string]interface{}{"what": b, "goroutines": sc.G, "each": sc.N})
+		}
+	}
+	return child.Pass("concurrent")
 }
